@@ -235,7 +235,9 @@ def r18_4(ctx: Ctx) -> None:
     f = ctx.prog.func("py7zr", "Worker.decompress")
     cfg = cfg_of(f.node)
     u = [c for t, c in puts(f) if t == "u"]
-    ctx.floor("R18.4", len(u), 1, "'u' put in Worker.decompress")
+    if not u:
+        ctx.fail("R18.4", f, f.node, "Worker.decompress puts no 'u' (update) event: decoded bytes are never reported", construct="update event put")
+        return
     loops = [n for n in walk(f.node) if isinstance(n, ast.While)]
     ctx.need(bool(loops), "decode loop not found")
     lp = loops[0]
